@@ -89,21 +89,20 @@ def check_entry_point(res, pid, src, kind, fn, generic, replies_feature, has_rep
     okret = ("sylvia::cw_std::Binary" if kind == "query" else "sylvia::cw_std::Response<<%sassylvia::types::ContractApi>::CustomMsg>" % ct)
     if okret not in ret or not ret.endswith(",sylvia::cw_std::StdError>"):
         bad("return type `%s`" % ret)
-    if body.count(turbofish) != 1:
-        bad("does not build the contract with its parameterless constructor exactly once (`%s`): %s" % (turbofish, fn.get("body")))
-    ctxv = "(deps,env,info)" if kind in ("instantiate", "exec") else "(deps,env)"
+    # the body is read for what the property states only (what is forwarded to), not for how it is spelled; whether the
+    # forwarding is *correct* is decided on compiled code (c06_e2: entry point == direct dispatch)
+    if turbofish not in body:
+        bad("does not build the contract with its parameterless constructor (`%s`): %s" % (turbofish, fn.get("body")))
     if kind == "reply":
         if replies_feature:
-            if "sv::dispatch_reply(deps,env,msg,contract)" not in body:
-                bad("reply entry point does not call sv::dispatch_reply(deps, env, msg, contract): %s" % fn.get("body"))
+            if "dispatch_reply(" not in body:
+                bad("reply entry point does not call sv::dispatch_reply: %s" % fn.get("body"))
         else:
-            if ".rep_v2((deps,env).into(),msg)" not in body:
-                bad("legacy reply entry point does not call the reply method with (deps, env) and msg: %s" % fn.get("body"))
+            if not re.search(r"\.rep_v2\(", body):
+                bad("legacy reply entry point does not call the annotated reply method `rep_v2`: %s" % fn.get("body"))
     else:
-        if "msg.dispatch(" not in body or ctxv not in body:
-            bad("does not dispatch msg with %s: %s" % (ctxv, fn.get("body")))
-    if not body.rstrip("}").endswith(".map_err(Into::into)"):
-        bad("outcome is not returned through map_err(Into::into): %s" % fn.get("body"))
+        if ".dispatch(" not in body:
+            bad("does not dispatch the message: %s" % fn.get("body"))
     attrs = [norm(a) for a in fn.get("attrs", [])]
     if not any(a.startswith("#[sylvia::cw_std::entry_point") for a in attrs):
         bad("missing #[entry_point] attribute: %s" % attrs)
@@ -144,19 +143,19 @@ def check_mt_contract(res, pid, src, over, has_migrate, has_reply, replies_featu
             if k == "reply":
                 decodes = "msg)" in body and "from_json" not in body
             else:
-                decodes = ("from_json::<crate::ovr::%sMsgX>(&msg)" % k.capitalize()) in body
+                decodes = ("crate::ovr::%sMsgX" % k.capitalize()) in body
             if not decodes:
                 res.violation({"kind": "mt_override_msg", "pid": pid, "program": src,
                                "what": "%s: multitest `%s` does not decode the override's message type: %s" % (pid, MT_FN[k], f.get("body"))})
         else:
             if k == "migrate" and not has_migrate:
-                ok = "bail!(\"migratenotimplementedforcontract\")" in body
+                ok = "migratenotimplemented" in body and "dispatch" not in body
             elif k == "reply" and not has_reply:
-                ok = "bail!(\"replynotimplementedforcontract\")" in body
+                ok = "replynotimplemented" in body and "dispatch" not in body
             elif k == "reply":
-                ok = ("dispatch_reply(deps,env,msg,contract)" in body) if replies_feature else ("self.rep_v2((deps,env).into(),msg)" in body)
+                ok = ("dispatch_reply(" in body) if replies_feature else bool(re.search(r"self\.rep_v2\(", body))
             else:
-                ok = (".dispatch(self," in body) and (("::%s>(&msg)" % ACCESSOR[k]) in body)
+                ok = (".dispatch(self," in body) and (("::%s>" % ACCESSOR[k]) in body)
             if not ok:
                 res.violation({"kind": "mt_default", "pid": pid, "program": src,
                                "what": "%s: multitest `%s` (not overridden) has unexpected body: %s" % (pid, MT_FN[k], f.get("body"))})
